@@ -3,7 +3,8 @@
 
     c08 <n> <spec>*n  <kI> i*kI  <kO> o*kO  <kP> <op>*kP  <kR> (<m> (i <val>)*m)*kR
       spec : as in Drv/C01 (I <val> | F ref j | F cat k j*k | F add a b | F sum k j*k | F cnt k j*k | F idx r row col
-             | R <rows> <cols> j*(rows*cols))
+             | R <rows> <cols> j*(rows*cols)) and F divc j <num> | F gt j <num> | F eqc j <num> | F ifgt j <num>
+             (Model/TrimInst.lean; a comparison whose exact operands nearly tie is answered `u` = undecided)
       op   : S i <val> | E i          (history before the trim, on the in-memory model without stored results)
   Answer, sections joined by ';':
       ok | err:input | err:output
@@ -17,8 +18,9 @@
 import Pycel.Model.Proto
 import Pycel.Model.EngineInst
 import Pycel.Model.Trim
+import Pycel.Model.TrimInst
 namespace Pycel.Drv.C08
-open Pycel Pycel.Engine Pycel.EngineInst Pycel.Trim
+open Pycel Pycel.Engine Pycel.EngineInst Pycel.Trim Pycel.TrimInst
 
 partial def takeNats : Nat → List String → Option (List Nat × List String)
   | 0, ts => some ([], ts)
@@ -28,13 +30,26 @@ partial def takeNats : Nat → List String → Option (List Nat × List String)
     some (j :: js, rest)
   | _, [] => none
 
-partial def parseSpecs : Nat → List String → Option (List Spec × List String)
+def decNum? (tok : String) : Option Rat :=
+  match Val.dec? tok with
+  | some (.num q) => some q
+  | _ => none
+
+partial def parseSpecs : Nat → List String → Option (List (Spec × Option Ov) × List String)
   | 0, ts => some ([], ts)
   | k+1, ts => do
+    let ((sp, ov), rest) ← (match ts with
+      | "F" :: "divc" :: j :: c :: rest => do some ((Spec.fml (.ref (← j.toNat?)), some (Ov.divc (← decNum? c))), rest)
+      | "F" :: "gt" :: j :: c :: rest => do some ((Spec.fml (.ref (← j.toNat?)), some (Ov.gt (← decNum? c))), rest)
+      | "F" :: "eqc" :: j :: c :: rest => do some ((Spec.fml (.ref (← j.toNat?)), some (Ov.eqc (← decNum? c))), rest)
+      | "F" :: "ifgt" :: j :: c :: rest => do some ((Spec.fml (.ref (← j.toNat?)), some (Ov.ifgt (← decNum? c))), rest)
+      | _ => none : Option ((Spec × Option Ov) × List String)) <|> (do
     let (sp, rest) ← (match ts with
       | "I" :: v :: rest => do some (Spec.inp (← Val.dec? v), rest)
       | "F" :: "ref" :: j :: rest => do some (Spec.fml (.ref (← j.toNat?)), rest)
       | "F" :: "add" :: a :: b :: rest => do some (Spec.fml (.add (← a.toNat?) (← b.toNat?)), rest)
+      | "F" :: "sub" :: a :: b :: rest => do some (Spec.fml (.sub (← a.toNat?) (← b.toNat?)), rest)
+      | "F" :: "eq" :: a :: b :: rest => do some (Spec.fml (.eq (← a.toNat?) (← b.toNat?)), rest)
       | "F" :: "idx" :: r :: row :: col :: rest => do
           some (Spec.fml (.idx (← r.toNat?) (← row.toNat?) (← col.toNat?)), rest)
       | "F" :: "cat" :: k :: rest => do
@@ -52,8 +67,9 @@ partial def parseSpecs : Nat → List String → Option (List Spec × List Strin
           let (js, rest) ← takeNats (r*c) rest
           some (Spec.rng (chunk c r js), rest)
       | _ => none : Option (Spec × List String))
+    some ((sp, none), rest))
     let (sps, rest) ← parseSpecs k rest
-    some (sp :: sps, rest)
+    some ((sp, ov) :: sps, rest)
 
 partial def parseOps : Nat → List String → Option (List (Op EV) × List String)
   | 0, ts => some ([], ts)
@@ -88,24 +104,24 @@ def encEV : EV → String
 def natList (l : List Nat) : String := ",".intercalate (l.map toString)
 
 /-- apply the writes (answer ok/rej each), then evaluate every output in order -/
-def roundOn (wb : Workbook) (f : Nat → (Nat → EV) → EV) (O : List Nat) (ws : List (Nat × EV)) (s : State EV) :
-    List String × List String × State EV :=
+def roundOn (wb : Workbook) (f : Nat → (Nat → EV) → EV) (tie : Nat → State EV → Bool) (O : List Nat)
+    (ws : List (Nat × EV)) (s : State EV) : List String × List String × State EV :=
   let (acks, s1) := ws.foldl (fun (acc : List String × State EV) (w : Nat × EV) =>
       let st := acc.2
       let ok := decide (w.1 < wb.n) && decide (wb.kind w.1 = .input) && st.built w.1
       (acc.1 ++ [if ok then "ok" else "rej"], setValue wb typedEq w.1 w.2 st)) ([], s)
   let (vals, s2) := O.foldl (fun (acc : List String × State EV) (o : Nat) =>
       let r := evaluate wb f o acc.2
-      (acc.1 ++ [encEV r.1], r.2)) ([], s1)
+      (acc.1 ++ [if tie o r.2 then "u" else encEV r.1], r.2)) ([], s1)
   (acks, vals, s2)
 
-def runRounds (t : Trimmed EV) (wbR : Workbook) (O : List Nat) :
+def runRounds (t : Trimmed EV) (wbR : Workbook) (tie : Workbook → Nat → State EV → Bool) (O : List Nat) :
     List (List (Nat × EV)) → State EV → State EV → List String
   | [], _, _ => []
   | ws :: rest, st, sl =>
-    let (acks, vals, st') := roundOn t.wb t.f O ws st
-    let (_, valsL, sl') := roundOn wbR t.f O ws sl
-    "~".intercalate (acks ++ vals ++ ["L"] ++ valsL) :: runRounds t wbR O rest st' sl'
+    let (acks, vals, st') := roundOn t.wb t.f (tie t.wb) O ws st
+    let (_, valsL, sl') := roundOn wbR t.f (tie wbR) O ws sl
+    "~".intercalate (acks ++ vals ++ ["L"] ++ valsL) :: runRounds t wbR tie O rest st' sl'
 
 def handle : List String → String
   | "c08" :: n :: rest =>
@@ -114,7 +130,14 @@ def handle : List String → String
     | some n =>
       match parseSpecs n rest with
       | none => "!bad-spec"
-      | some (specs, rest) =>
+      | some (specsOv, rest) =>
+        let specs := specsOv.map (·.1)
+        let ovs := specsOv.map (·.2)
+        let ov : Nat → Option Ov := fun i => (ovs.getD i none)
+        let tie : Workbook → Nat → State EV → Bool := fun w o st =>
+          match ov o, specs[o]? with
+          | some k, some (Spec.fml (Fml.ref j)) => nearTie k (valueOf w st j).val
+          | _, _ => false
         let parsed : Option (List Nat × List Nat × List (Op EV) × List (List (Nat × EV))) := do
           let (kI, rest) ← (match rest with | k :: r => do some (← k.toNat?, r) | [] => none)
           let (I, rest) ← takeNats kI rest
@@ -130,7 +153,7 @@ def handle : List String → String
         | some (I, O, pre, rounds) =>
           if !wfCheck specs then "!notwf" else
           let wb := mkWb specs
-          let f := sem specs
+          let f := semOv specs ov
           let s := run wb f typedEq (initNoData (inputsOf specs)) pre
           match trim wb f I O s with
           | .error (.inputUnused _) => "err:input"
@@ -140,7 +163,7 @@ def handle : List String → String
             let lost := (List.range wb.n).filter fun k => t.frozen k && decide (wb.kind k = .formula)
             let wbR := reloadWb wb t
             let sl := initLoaded wbR t.f (reloadInp wb (.sc .blank) t)
-            ";".intercalate (["ok", "K" ++ natList keep, "Z" ++ natList lost] ++ runRounds t wbR O rounds t.st sl)
+            ";".intercalate (["ok", "K" ++ natList keep, "Z" ++ natList lost] ++ runRounds t wbR tie O rounds t.st sl)
   | _ => "!bad-op"
 
 end Pycel.Drv.C08
